@@ -155,3 +155,20 @@ package node
 //@   at call podIPs: ghost c02v4 = result0
 //@   at call podIPs: ghost c02v6 = result1
 //@ guard mapupdate string->*PodRequest in getPods: c02parsed && value != nil && value.IPv4 == c02v4 && value.IPv6 == c02v6
+
+//@ for C02
+//@ # ---- syncPods hands the node's RDMA switch to the assignment step as configured: the partition between RDMA and ordinary
+//@ # ---- interfaces does not depend on which pods happen to exist right now ----
+//@ guard call assignIPFromLocalPool in syncPods: arg4 == node.Spec.ENISpec.EnableERDMA
+
+//@ for C02 C03
+//@ # ---- buildIPMap only indexes and links: it never rewrites who owns an address (unbinding is releasePodNotFound's job,
+//@ # ---- and only after the teardown report) — also not through a helper ----
+//@ func buildIPMap
+//@   preserves networkv1beta1.IP.PodID, networkv1beta1.IP.PodUID
+
+//@ for C08
+//@ # ---- full sync: an EFLO secondary address the cloud does not report as Available (half-created, failed, unknown
+//@ # ---- status) is recorded for deletion, never as a usable address ----
+//@ func convertIPSet$1
+//@   ensures item.IPName != "" && item.IPStatus != "Available" && !item.Primary ==> result1 != nil && result1.Status == "Deleting"
